@@ -134,6 +134,12 @@ Theorem C04_by_denom_recipient_fixed : forall r, msg_req_gen true (MByDenom r) =
 Proof. exact by_denom_recipient_forwarded. Qed.
 Print Assumptions C04_by_denom_recipient_fixed.
 
+(* since fix: a75f29f the handlers refuse a recipient on bank's blocked-address list: nothing is stored *)
+Theorem C04_blocked_recipient_refused : forall e s m c,
+  e_blocked e (r_rcpt (msg_req m)) = true -> enqueue e s m c = Err 12.
+Proof. exact enqueue_blocked_refused. Qed.
+Print Assumptions C04_blocked_recipient_refused.
+
 (* Non-vacuity: a block with an exact-in and an opposite exact-out request on one pool, coded selection: the
    exact-in request executes (sender -1000 of denom 0, +1990 of denom 1 incl. a bonus of 0), the opposite one is
    dropped because its maximum is exceeded, the queue ends empty. *)
